@@ -696,6 +696,9 @@ func ruleFreeParsersLast(w *World, r *Report) {
 					if builtinName(x.Common()) == "append" && len(x.Common().Args) == 2 && isFieldLoad(x.Common().Args[1], freeField) {
 						spreads = append(spreads, site{fn, ins})
 					}
+					if builtinName(x.Common()) == "copy" && len(x.Common().Args) == 2 && isFieldLoad(x.Common().Args[1], freeField) {
+						spreads = append(spreads, site{fn, ins})
+					}
 				case *ssa.Store:
 					if ia, ok := x.Addr.(*ssa.IndexAddr); ok {
 						if fa, ok := ia.X.(*ssa.FieldAddr); ok {
@@ -773,8 +776,18 @@ func ruleFreeParsersLast(w *World, r *Report) {
 		// or inside a range over the trigger bytes (range over nil runs zero times)
 		if !ok {
 			for _, l := range findLoops(s.fn) {
-				if l.Body[s.ins.Block()] {
-					ok = true
+				if !l.Body[s.ins.Block()] {
+					continue
+				}
+				// the loop must be the range over the trigger bytes: its header compares against len(<[]byte>)
+				if iff, isIf := l.Header.Instrs[len(l.Header.Instrs)-1].(*ssa.If); isIf {
+					if bo, isB := iff.Cond.(*ssa.BinOp); isB {
+						for _, side := range []ssa.Value{bo.X, bo.Y} {
+							if c, isC := side.(*ssa.Call); isC && builtinName(c.Common()) == "len" && isByteSlice(c.Common().Args[0].Type()) {
+								ok = true
+							}
+						}
+					}
 				}
 			}
 		}
@@ -819,10 +832,89 @@ func ruleFreeParsersLast(w *World, r *Report) {
 			if d := loopDirection(&l); d == "ascending" {
 				nWalk++
 				r.OK(w.FnKey(fn)+": walk of the selected parser list", w.FnPos(fn), "ascending index order")
+				w.checkWalkNotBypassed(r, fn, &l, tableField)
 			}
 		}
 	}
 	r.Expect("ascending walks over the selected block-parser list", nWalk, 1)
+}
+
+// checkWalkNotBypassed: once a list has been looked up in the trigger table, the function does not leave for its exit
+// without walking the selected list, except when that very list is nil. A shortcut that skips the trigger-less
+// parsers when no triggered list exists ("this line can only continue the paragraph") takes away the turn of a
+// trigger-less parser that may interrupt a paragraph.
+func (w *World) checkWalkNotBypassed(r *Report, fn *ssa.Function, l *Loop, tableField *types.Var) {
+	key := w.FnKey(fn) + ": the selected list is always walked"
+	// the value the loop ranges over: len(x) in the loop's pre-header / header comparison
+	var ranged ssa.Value
+	if iff, ok := l.Header.Instrs[len(l.Header.Instrs)-1].(*ssa.If); ok {
+		if bo, ok := iff.Cond.(*ssa.BinOp); ok {
+			for _, side := range []ssa.Value{bo.X, bo.Y} {
+				if c, ok := side.(*ssa.Call); ok && builtinName(c.Common()) == "len" {
+					ranged = c.Common().Args[0]
+				}
+			}
+		}
+	}
+	if ranged == nil {
+		r.Unknown(key, w.FnPos(fn), "the list the walk ranges over was not identified")
+		return
+	}
+	var loads []*ssa.BasicBlock
+	for _, b := range fn.Blocks {
+		for _, ins := range b.Instrs {
+			if ia, ok := ins.(*ssa.IndexAddr); ok {
+				if fa, ok := ia.X.(*ssa.FieldAddr); ok {
+					if _, g := fieldOfAddr(fa); g == tableField {
+						loads = append(loads, b)
+					}
+				}
+			}
+		}
+	}
+	if len(loads) == 0 {
+		r.Unknown(key, w.FnPos(fn), "no lookup in the trigger table found")
+		return
+	}
+	bad := ""
+	for _, t := range loads {
+		seen := map[*ssa.BasicBlock]bool{}
+		var dfs func(b *ssa.BasicBlock)
+		dfs = func(b *ssa.BasicBlock) {
+			if bad != "" || seen[b] || b == l.Header || l.Body[b] {
+				return
+			}
+			seen[b] = true
+			if isReturnBlock(b) {
+				bad = w.InstrPos(b.Instrs[len(b.Instrs)-1])
+				return
+			}
+			iff, isIf := b.Instrs[len(b.Instrs)-1].(*ssa.If)
+			for i, s := range b.Succs {
+				if isIf && len(b.Succs) == 2 {
+					if x, isNil, isT := nilTest(iff.Cond); isT && x == ranged && (i == 0) == isNil {
+						continue // the selected list itself is nil: nothing to walk
+					}
+				}
+				dfs(s)
+			}
+		}
+		// start after the lookup: the successors of the block (the lookup block itself may end in the nil test)
+		iff, isIf := t.Instrs[len(t.Instrs)-1].(*ssa.If)
+		for i, s := range t.Succs {
+			if isIf && len(t.Succs) == 2 {
+				if x, isNil, isT := nilTest(iff.Cond); isT && x == ranged && (i == 0) == isNil {
+					continue
+				}
+			}
+			dfs(s)
+		}
+	}
+	if bad != "" {
+		r.Bad(key, bad, "after looking a line's first byte up in the trigger table the function can reach its exit without walking the selected list although that list is not nil (or was not even selected): trigger-less parsers lose their turn on such lines")
+	} else {
+		r.OK(key, w.FnPos(fn), "from the table lookup every way to the exit passes the walk, except when the selected list is nil")
+	}
 }
 
 var _ = strings.Join
